@@ -7,6 +7,7 @@ from __future__ import annotations
 
 import ast
 import hashlib
+import os
 from dataclasses import dataclass, field
 from typing import Any, Callable
 
@@ -522,9 +523,29 @@ class Executor:
         view = self.lib.iter_view(self, st, itv, node.iter)
         n_c = self.concrete_int(view.n)
         inv = self.loop_invariant(ordinal)
+        if n_c is None and inv is None and not st.spec:
+            n_c = self.entailed_int(st, view.n)
         if n_c is not None and n_c <= MAX_UNROLL and inv is None:
             return self.unroll_for(st, node, view, n_c)
         return self.invariant_for(st, node, view, ordinal, inv)
+
+    def entailed_int(self, st: State, t):
+        """The value of an Int term when the path condition entails a unique small one
+        (e.g. `len(self.children) == 2` from a precondition): lets fixed-arity loops unroll.
+        Candidates are refuted one by one (unsat checks only: robust with quantified facts)."""
+        from .verify import heap_closure
+        base = [h for h in st.pc] + heap_closure(st) + VV.ATOMS.axioms()
+        cands = list(dict.fromkeys(getattr(self, '_last_entailed', []) + [1, 2, 0, 3, 4]))
+        for c in cands:
+            s = z3.Solver()
+            s.set('timeout', 800)
+            s.add(*base)
+            s.add(t != c)
+            if str(s.check()) == 'unsat':
+                st.pc.append(t == c)
+                self._last_entailed = [c]
+                return c
+        return None
 
     def concrete_int(self, t):
         t = z3.simplify(t)
@@ -1871,6 +1892,19 @@ class Executor:
                 reads = [pre_heap.get(f) if f in pre_heap else st.field(f) for f in con.reads]
                 argts = [self.box(st, env[p]) for p in [x.arg for x in fi.node.args.args] if p in env]
                 sorts = [a.sort() for a in argts] + [h.sort() for h in reads] + [Val]
+                if rty.kind == 'list':
+                    # a pure function returning a list: an immutable sequence VALUE (length and
+                    # contents are functions of the arguments), not a heap object
+                    n_t = uf('Flen!' + con.qualname, *sorts[:-1], I)(*argts, *reads)
+                    a_t = uf('Farr!' + con.qualname, *sorts[:-1], z3.ArraySort(I, Val))(*argts, *reads)
+                    st.assume(n_t >= 0)
+                    ety = rty.args[0] if rty.args else ANY
+                    if ety.kind != 'any':
+                        jj = z3.Int(fresh_name('j'))
+                        for fct in type_invariant(V(z3.Select(a_t, jj), ety)):
+                            st.pc.append(z3.ForAll([jj], fct))
+                    st.locals = caller_locals
+                    return v_py(('specseq', n_t, a_t, ety))
                 res_t = uf('F!' + con.qualname, *sorts)(*argts, *reads)
             else:
                 res_t = fresh_val('ret!' + fi.name)
